@@ -15,9 +15,19 @@ import (
 // C14 — configured delays are lower bounds and never reorder, drop, duplicate or crash.
 
 func c14filter(delay time.Duration, n, bound int, go123 bool, slow ...time.Duration) *explore.Scenario {
+	return c14filterOpt(delay, n, bound, go123, false, slow...)
+}
+
+// c14filterOpt: stamped = every arriving chunk already carries a router-queue timestamp that lies further back
+// than the filter's delay (it waited in a delaying router before it reached the filter); the filter's delay
+// counts from the arrival at the filter all the same.
+func c14filterOpt(delay time.Duration, n, bound int, go123, stamped bool, slow ...time.Duration) *explore.Scenario {
 	name := fmt.Sprintf("delayfilter d=%v n=%d", delay, n)
 	if go123 {
 		name += " (go1.23 timers)"
+	}
+	if stamped {
+		name += " chunks carry an older queue timestamp"
 	}
 	var slowBy time.Duration
 	if len(slow) > 0 {
@@ -52,8 +62,13 @@ func c14filter(delay time.Duration, n, bound int, go123 bool, slow ...time.Durat
 						zzvsched.Sleep(g)
 					}
 				}
+				if stamped {
+					vnet.ZZStamp = zzvsched.Now().Add(-2*delay - time.Millisecond)
+				}
+				ch := vnet.ZZUDPChunk("10.0.0.1:1", "10.0.0.2:2", []byte(fmt.Sprintf("p%d", i)))
+				vnet.ZZStamp = time.Time{}
 				sentAt = append(sentAt, zzvsched.Elapsed())
-				vnet.ZZPush(f, vnet.ZZUDPChunk("10.0.0.1:1", "10.0.0.2:2", []byte(fmt.Sprintf("p%d", i))))
+				vnet.ZZPush(f, ch)
 				pushed++
 			}
 		}
@@ -569,6 +584,8 @@ func init() {
 			out = append(out, c14restart(0, 1), c14restart(time.Millisecond, 1))
 			// several arrival paths at once into an idle filter
 			out = append(out, c14filterConc(0, 2, 1, 2), c14filterConc(500*time.Microsecond, 2, 1, 2), c14filterConc(500*time.Microsecond, 2, 2, 1))
+			// chunks that waited in a delaying router before reaching the filter (older queue timestamp)
+			out = append(out, c14filterOpt(10*time.Millisecond, 2, 1, false, true), c14filterOpt(500*time.Microsecond, n, 1, false, true))
 			// the Run loop stopped while datagrams wait, optionally started again
 			out = append(out, c14filterStop(10*time.Millisecond, 2, 2), c14filterStop(500*time.Microsecond, 3, 1))
 			if tier == "thorough" {
@@ -578,6 +595,6 @@ func init() {
 			}
 			return out
 		},
-		Rule:        "delay filter: (also: Run cancelled 0/d/2/d after the last arrival while datagrams wait, optionally run again) delays {0, 500us, 10ms} x arrival scripts of 3 (thorough 4) datagrams with gaps {0, d/2, d, 2d} x every interleaving of the Run loop, the arrival path and timer expiries within the deviation bound, under legacy and go1.23 channel-timer semantics; 2-3 concurrent arrival paths x 1-2 datagrams into an idle filter (order judged between non-overlapping pushes); router: MinDelay {0,1ms,20ms} x MaxJitter {0,1ms} (jitter draws {0,max-1}) x write gaps x schedules; the router stopped and started again twice, with and without a datagram still on its way (what is written after Start returned must be forwarded); forwarding stamps are taken in a recording NIC on the virtual clock",
+		Rule:        "delay filter: (also: Run cancelled 0/d/2/d after the last arrival while datagrams wait, optionally run again; also: chunks that already carry a router-queue timestamp older than the delay) delays {0, 500us, 10ms} x arrival scripts of 3 (thorough 4) datagrams with gaps {0, d/2, d, 2d} x every interleaving of the Run loop, the arrival path and timer expiries within the deviation bound, under legacy and go1.23 channel-timer semantics; 2-3 concurrent arrival paths x 1-2 datagrams into an idle filter (order judged between non-overlapping pushes); router: MinDelay {0,1ms,20ms} x MaxJitter {0,1ms} (jitter draws {0,max-1}) x write gaps x schedules; the router stopped and started again twice, with and without a datagram still on its way (what is written after Start returned must be forwarded); forwarding stamps are taken in a recording NIC on the virtual clock",
 		Assumptions: []string{"a thread stalled for an arbitrary time is one deviation (the clock may pass a deadline while the loop has not run)", "time.Minute idle re-arms lie beyond the 30 s horizon and never fire"}})
 }
